@@ -461,6 +461,7 @@ func (f *FuncCtx) doReturn(results []ast.Expr, env *Env, at ast.Node) {
 		}
 	}
 	fr.rets = append(fr.rets, env)
+	fr.retDefers = append(fr.retDefers, len(fr.defers))
 }
 
 // runDefers executes deferred calls on each return state (reverse order), ignoring bookkeeping calls.
@@ -475,8 +476,13 @@ func (f *FuncCtx) runDefers(fr *frame) {
 			f.note("deferred recover() handler not modelled")
 			continue
 		}
-		for _, e := range fr.rets {
+		for j, e := range fr.rets {
 			if e.dead {
+				continue
+			}
+			// a return reached before this defer statement was executed does not run it (the walk is in source
+			// order, so the count at the time of the return over-approximates the defers registered on its path)
+			if j < len(fr.retDefers) && i >= fr.retDefers[j] {
 				continue
 			}
 			saved := f.fr
@@ -911,6 +917,26 @@ func (f *FuncCtx) loopCommon(label string, env *Env, fl *flow, nodes []ast.Node,
 	// havoc modified state
 	ms := &modSet{objs: map[types.Object]bool{}, heaps: map[string]bool{}}
 	f.modsOf(nodes, env, 0, ms)
+	// a call in the loop may run an escaped function literal of this function: what such literals assign is modified
+	if caps := f.escapedCaptures(); len(caps) > 0 {
+		hasCall := false
+		for _, nd := range nodes {
+			if nd == nil {
+				continue
+			}
+			ast.Inspect(nd, func(m ast.Node) bool {
+				if _, ok := m.(*ast.CallExpr); ok {
+					hasCall = true
+				}
+				return !hasCall
+			})
+		}
+		if hasCall {
+			for _, cv := range caps {
+				ms.objs[cv.obj] = true
+			}
+		}
+	}
 	if c != nil {
 		for _, extra := range c.LoopMod[ord] {
 			for o := range env.vars {
